@@ -4,16 +4,22 @@
 
 package engine
 
+// Matching starts from empty data (no bindings leak between files or changes) and never writes.
 //@ func (c *Change) Match(f) (d, ok)
-//@   trusted API-level summary; its frame (matching never writes) is checked by the write-inventory analysis of gvc, its functional behaviour by the contracts of the matchers below
-//@   requires f != nil
+//@   requires f != nil && f.Name != nil && c.matcher.NodeMatcher != nil
+//@   requires typing: forall i int {f.Imports[i]} :: 0 <= i && i < len(f.Imports) ==> f.Imports[i] != nil && f.Imports[i].Path != nil && unquoteOK(f.Imports[i].Path.Value)
+//@   at call (engine.FileMatcher).Match assert [C02,C14] every-file-match-starts-from-empty-data: dmap(arg2) == emptyMap()
+//@   at call (engine.FileMatcher).Match set matchCount = matchCount + ite(result1, 1, 0)
 //@   assigns matchCount
 //@   ensures ok ==> matchCount == old(matchCount) + 1
 //@   ensures !ok ==> matchCount == old(matchCount)
+//@   ensures d != nil
 
 //@ func (c *Change) Replace(d, cl) (f, err)
-//@   trusted API-level summary; functional behaviour is covered by the replacer contracts below
-//@   assigns group(ast), replFail
+//@   requires d != nil && c.replacer.NodeReplacer != nil
+//@   requires typing: dmap(d)[boxed(global("github.com/uber-go/gopatch/internal/engine.fileMatchKey"))] != nil ==> wfFileMatch(dmap(d)[boxed(global("github.com/uber-go/gopatch/internal/engine.fileMatchKey"))])
+//@   at call (engine.FileReplacer).Replace set replFail = replFail + ite(result1 != nil, 1, 0)
+//@   assigns group(ast), replFail, sitesReplaced
 //@   ensures err == nil ==> f != nil && replFail == old(replFail)
 //@   ensures err != nil ==> replFail == old(replFail) + 1
 
@@ -399,7 +405,8 @@ package engine
 //@   at call engine.Replacer.Replace set sitesReplaced = sitesReplaced + 1
 //@   assigns group(ast), sitesReplaced
 //@   ensures [C03] every-recorded-site-is-processed: err == nil ==> sitesReplaced == old(sitesReplaced) + len(fd.Matches)
-//@   ensures [C06,C09] the-matched-file-object-is-returned: err == nil ==> file == fd.File && file != nil
+//@   ensures [C06,C09] the-matched-file-object-is-returned: err == nil ==> file == fd.File
+//@   ensures err == nil ==> file != nil
 //@   loop 0
 //@     invariant [C03] sitesReplaced == old(sitesReplaced) + #k
 
